@@ -845,6 +845,11 @@ impl LinkRelay<OutputHandle> {
         &mut self,
         detach: Detach,
     ) -> Result<(), mpsc::error::SendError<LinkFrame>> {
+        // A closed link has no unsettled state to resume: nobody will settle what is
+        // still pending, and the link handle may not be polled while its caller waits
+        if detach.closed {
+            self.fail_pending_settlements();
+        }
         match self {
             LinkRelay::Sender { tx, .. } => {
                 tx.send(LinkFrame::Detach(detach)).await?;
